@@ -614,7 +614,7 @@ class Lib:
             from .pandas_model import df_loc_getitem
             return df_loc_getitem(interp, obj.recv, key)
         if isinstance(obj, A.Masked):
-            raise EngineError("indexing a masked selection")
+            return A.getitem(obj, key)
         raise EngineError(f"subscript of {type(obj).__name__}")
 
     def value_setitem(self, interp, obj, key, value):
